@@ -51,6 +51,9 @@ func vfC06(w *vfWorld) {
 	cfg.ReverseProxy = t.Prob("c06.rp", 300)
 	cfg.EncodeState = t.Bool("c06.encode")
 	cs.ReverseProxy, cs.EncodeState = cfg.ReverseProxy, cfg.EncodeState
+	if t.Prob("c06.gitlab", 150) {
+		cfg.Provider = "gitlab" // builds a second URL from the login URL at every login: the login URL itself stays what it is
+	}
 	cfg.SkipButton = t.Bool("c06.skipbutton")
 	ht := w.writeFile("htpasswd", vfSHAEntry("hank", "pw-hank")+"\n")
 	cfg.Extra = append(cfg.Extra, "--htpasswd-file="+ht)
@@ -208,6 +211,7 @@ func vfC06(w *vfWorld) {
 		}
 	}
 	// ---- channels that involve pages, the form login and the IdP: a seeded sample ----
+	var logged *vfBrowser
 	nSample := 120
 	if w.tier == "thorough" {
 		nSample = 600
@@ -215,7 +219,7 @@ func vfC06(w *vfWorld) {
 	for i := 0; i < nSample; i++ {
 		s := strs[t.Choice("c06.pick", len(strs))]
 		q := url.QueryEscape(s)
-		switch t.Choice("c06.channel", 7) {
+		switch t.Choice("c06.channel", 8) {
 		case 0: // htpasswd form login
 			body := url.Values{"username": {"hank"}, "password": {"pw-hank"}, "rd": {s}}.Encode()
 			r := cl.Do(rep, &vfReq{Method: "POST", Target: pp + "/sign_in", NoJar: true, Body: []byte(body), Headers: [][2]string{{"Content-Type", "application/x-www-form-urlencoded"}}})
@@ -309,6 +313,20 @@ func vfC06(w *vfWorld) {
 			cb := b.GET(rep, lg.CallbackTarget(pp))
 			if cb.ParseErr == nil && cb.Status == 302 {
 				judge("tampered-state->callback", s, cb.Location())
+			}
+		case 7: // a forged callback link followed by somebody who is signed in already (the login it pretends to finish was
+			// completed earlier or never started: no CSRF cookie, or a used-up one)
+			if logged == nil {
+				logged = w.NewBrowser("Blogged", "198.51.100.22:1")
+				if _, cb := logged.Login(rep, pp+"/start?rd=%2Fapp", "alice"); cb == nil || cb.Status != 302 {
+					w.fatalf("c06: login for the forged-callback case failed")
+				}
+			}
+			st := vfJoinState(vfPick(t, "c06.forged-nonce", []string{"x", "bm9uY2U", ""}), s, cfg.EncodeState)
+			target := pp + "/callback?code=" + vfPick(t, "c06.forged-code", []string{"x", "code-1", ""}) + "&state=" + url.QueryEscape(st)
+			cb := logged.Do(rep, &vfReq{Method: "GET", Target: target, NoApply: true})
+			if cb.ParseErr == nil && cb.Status >= 300 && cb.Status < 400 {
+				judge("forged-callback-with-session", s, cb.Location())
 			}
 		}
 	}
